@@ -1317,14 +1317,25 @@ impl SparqlDatabase {
             .collect();
 
         for (triples, dict_arc, pref) in partial_results {
-            for t in triples {
+            // The chunk's ids belong to its private dictionary: re-encode every
+            // term through the shared dictionary before touching the index.
+            let reencoded: Vec<Triple> = {
+                let other_dict = dict_arc.read().unwrap();
+                let mut self_dict = self.dictionary.write().unwrap();
+                let mut translate =
+                    |id: u32| self_dict.encode(other_dict.decode(id).unwrap_or_default());
+                triples
+                    .iter()
+                    .map(|t| Triple {
+                        subject: translate(t.subject),
+                        predicate: translate(t.predicate),
+                        object: translate(t.object),
+                    })
+                    .collect()
+            };
+            for t in reencoded {
                 self.add_triple(t);
             }
-            let mut self_dict = self.dictionary.write().unwrap();
-            let other_dict = dict_arc.read().unwrap();
-            self_dict.merge(&other_dict);
-            drop(other_dict);
-            drop(self_dict);
             for (k, v) in pref {
                 self.prefixes.insert(k, v);
             }
